@@ -92,6 +92,12 @@ func (g *c16gen) operand(d int) *m.Node {
 		return m.If(g.b(), g.b(), g.b())
 	case 4:
 		if d > 0 {
+			switch rapid.IntRange(0, 3).Draw(g.t, "nestunder") {
+			case 0: // an and/or group below a one-operand operator is an and/or group like any other
+				return m.Op(rapid.SampledFrom([]string{"not", "!", "c_id"}).Draw(g.t, "unary"), g.boolNode(d-1, 4))
+			case 1:
+				return m.Op("c_id", m.Op("not", g.boolNode(d-1, 3)))
+			}
 			return g.boolNode(d-1, 4)
 		}
 		return g.b()
